@@ -236,6 +236,7 @@ class C08(Check):
                 at = rng.randrange(max(s2c_0 - (s2c_p - s2c_0) - 2, 0), s2c_p + 1)
         plan["cuts"] = [{"dir": d, "at": at, "kind": kind}]
         plan["linger"] = rng.choice([0.0, 0.0, 0.02]) if index >= len(cells) else 0.0
+        plan["read_again"] = rng_for(seed, "C08-read-again", index).choice([None, None, "none", 0.5]) if op == "t_read" and kind in ("EOF", "RST") else None
         if index >= len(cells) and scheme == "hsfz" and rng.random() < 0.3:
             # a non-default acknowledgement time in the target URI and a gateway that needs more than the default to acknowledge:
             # the configured value must also hold on the connections made by a reconnect
@@ -399,7 +400,12 @@ class C08(Check):
                 if op == "t_read":
                     o, v = await step("write", tr.write(REQ), (ack if ack else 0.0) + 0.01)
                     if o == "ok":
-                        await step("read", tr.read(timeout=T), T)
+                        o2, v2 = await step("read", tr.read(timeout=T), T)
+                        if plan.get("read_again") and (o2 == "conn" or (o2 == "ok" and v2 == b"")):
+                            # the caller tries once more on the transport that has just reported the loss: that must end as well
+                            # (at once or by the timeout), not wait for ever on a queue nobody feeds any more
+                            ra = plan["read_again"]
+                            await step("read_again", tr.read(timeout=None if ra == "none" else ra), None if ra == "none" else ra)
                 elif op == "request":
                     client = UDSClient(tr, timeout=T or 1.0, max_retry=plan["max_retry"])
                     holder["client"] = client
@@ -457,11 +463,19 @@ class C08(Check):
         # (1)+(2) bounded completion and outcome class per step
         cut_time = net.fired_cuts[0][0] if net.fired_cuts else None
         for s in steps:
+            if s["name"] == "read_again" and s["out"] == "other" and str(s["val"]).startswith("OSError"):
+                # the transport has reported the loss already and is closed: "bad file descriptor" for a further read is an error
+                # in bounded time, which is all the statement asks of it
+                s["out"] = "conn"
             if s["out"] == "other":
                 violation(res, "C08/outcome-class", f"C08/outcome-class:{scheme}:{s['name']}:{str(s['val']).split(':')[0]}",
                           f"{s['name']} ended with {s['val']} - neither timeout, connection error, end-of-stream nor missing response ({kind} cut at {cut['dir']}@{cut['at']})")
             dur = s["t1"] - s["t0"]
             b = s["bound"]
+            if s["name"] == "read_again":
+                b = (b if b is not None else 0.0) + ack + SLACK + 0.05  # no timeout given: the loss is known, it must end (almost) at once
+                if s["out"] == "ok" and s["val"] not in (b"", REPLY):
+                    violation(res, "C08/fabricated", f"C08/fabricated:{scheme}:read_again", f"read() after the loss returned {bytes(s['val']).hex()}")
             if s["name"] == "read" and b is not None:
                 b = b + SLACK
             if s["name"] == "write":
